@@ -296,6 +296,7 @@ type c06Case struct {
 	hasDoc bool
 	stat   [4]int // ct, rels, styles, docrels
 	zipOK  bool
+	deep   int // levels of nesting of an extreme-nesting case
 }
 
 func buildWeirdCase(r *rng, feats map[string]int, tier string) *c06Case {
@@ -303,6 +304,9 @@ func buildWeirdCase(r *rng, feats map[string]int, tier string) *c06Case {
 	parts := map[string][]byte{}
 	doc, label := genMainPart(r, feats, tier)
 	c.label = label
+	if i := strings.Index(label, "nested "); i >= 0 {
+		fmt.Sscanf(label[i:], "nested %d deep", &c.deep)
+	}
 	if r.chance(4) {
 		c.hasDoc = false
 		c.label = "main part missing"
@@ -450,7 +454,10 @@ func rectangular(t *document.Table) bool {
 	return true
 }
 
-func exerciseDoc(d *document.Document, r *rng) (ps []panicRec, notes []string) {
+// light: the document nests thousands of levels deep; saving it is quadratic in the depth (the indentation of the
+// written XML), which is slow, not wrong - it is read and edited but not saved (the quick tier saves documents of up
+// to 3000 levels)
+func exerciseDoc(d *document.Document, r *rng, light bool) (ps []panicRec, notes []string) {
 	guard("Body.GetParagraphs", &ps, func() {
 		for _, p := range d.Body.GetParagraphs() {
 			for range p.Runs {
@@ -461,7 +468,9 @@ func exerciseDoc(d *document.Document, r *rng) (ps []panicRec, notes []string) {
 	guard("Body.GetTables", &ps, func() { tables = d.Body.GetTables() })
 	guard("GetStyleManager", &ps, func() { _ = d.GetStyleManager().GetAllStyles() })
 	guard("GetPageSettings", &ps, func() { _ = d.GetPageSettings() })
-	guard("ToBytes", &ps, func() { _, _ = d.ToBytes() })
+	if !light {
+		guard("ToBytes", &ps, func() { _, _ = d.ToBytes() })
+	}
 	for ti, t := range tables {
 		if ti >= 4 {
 			break
@@ -533,6 +542,9 @@ func exerciseDoc(d *document.Document, r *rng) (ps []panicRec, notes []string) {
 		_ = d.GenerateTOC(&document.TOCConfig{Title: "c", MaxLevel: 3})
 	})
 	var saved []byte
+	if light {
+		return
+	}
 	guard("ToBytes after edits", &ps, func() {
 		b, err := d.ToBytes()
 		if err != nil {
@@ -724,7 +736,7 @@ func runC06(cfg *runCfg) error {
 			if d.Body == nil {
 				fail(ci, "usable_document", "nil_body", "opened document has no body", c)
 			} else {
-				p2, notes := exerciseDoc(d, cr)
+				p2, notes := exerciseDoc(d, cr, c.deep > 3000)
 				ps = append(ps, p2...)
 				for _, n := range notes {
 					fail(ci, "resave_well_formed", "resave:"+strings.SplitN(n, ":", 2)[0], n, c)
